@@ -197,10 +197,20 @@ def symm(n_key):
     return prov
 
 
-def spd(n_key):
+def spd(n_key, inv=False):
     def prov(draw, dims):
         n = n_key(dims) if callable(n_key) else dims[n_key]
-        return {'kind': 'array', 'v': draw(gen.spd(n)), 'dtype': 'float'}
+        out = {'kind': 'array', 'v': draw(gen.spd(n)), 'dtype': 'float'}
+        if inv and draw(st.booleans()):
+            out['inv'] = True
+        return out
+    return prov
+
+
+def spd_per_run():
+    """one precision per fold (list), each possibly the inverse of a covariance"""
+    def prov(draw, dims):
+        return {'kind': 'list', 'items': [spd('n_ch', inv=True)(draw, dims) for _ in range(dims['n_run'])]}
     return prov
 
 
@@ -496,7 +506,8 @@ spec('rdm.calc.calc_rdm_euclidean', descriptor=lit('cond', None), remove_mean=li
 spec('rdm.calc.calc_rdm_correlation', descriptor=lit('cond', None))
 spec('rdm.calc.calc_rdm_mahalanobis', descriptor=lit('cond', None), noise=_noise,
      remove_mean=lit(False, True))
-spec('rdm.calc.calc_rdm_crossnobis', descriptor=const('cond'), noise=_noise,
+spec('rdm.calc.calc_rdm_crossnobis', descriptor=const('cond'),
+     noise=one_of(const(None), spd('n_ch', inv=True), spd_per_run(), spd_per_run()),
      cv_descriptor=lit('run', None), remove_mean=lit(False, True))
 spec('rdm.calc.calc_rdm_poisson', descriptor=lit('cond', None))
 spec('rdm.calc.calc_rdm_poisson_cv', descriptor=const('cond'), cv_descriptor=const('run'))
